@@ -110,7 +110,7 @@ def run_step(w, st, res):
     try:
         if a == 'open_pr':
             rid = w.open_pr(st['src'], st['dst'], user=st.get('u', CONTRIB), file=st.get('file'),
-                            base=st.get('base'))
+                            base=st.get('base'), existing=st.get('existing', False))
             w.pmap[len(w.pmap) + 1] = rid
             return rid
         if a == 'push_src':
